@@ -130,3 +130,11 @@ BENIGN += [
     (LRU, "let prev_newest = self.head;\n        if prev_newest == i {\n            return;\n        } else if self.data[prev_newest as usize].prev != i {", "if self.head == i {\n            return;\n        }\n        if self.data[self.head as usize].prev != i {", "Lru::poke: inline the local, split the else-if"),
     (LRU, "let out = self.data[self.head as usize].prev;\n        self.head = out; // rotate\n        out", "let oldest = self.data[self.head as usize].prev;\n        self.head = oldest;\n        oldest", "Lru::pop: rename"),
 ]
+
+BENIGN += [
+    (SSA, ("all", "parent_count"), "n_parents", "SsaTape::new: rename parent_count"),
+    (SSA, ("all", "todo"), "work", "SsaTape::new: rename the work list"),
+    (SSA, "for child in op.iter_children() {\n                todo.push(child);\n                *parent_count.get_mut(&child).unwrap() -= 1;\n            }", "for child in op.iter_children() {\n                *parent_count.get_mut(&child).unwrap() -= 1;\n                todo.push(child);\n            }", "SsaTape::new pass 2: swap two independent statements"),
+    (SSA, "let i = slot_count;\n                    slot_count += 1;\n                    mapping.insert(node, Slot::Reg(i))", "let slot = slot_count;\n                    slot_count += 1;\n                    mapping.insert(node, Slot::Reg(slot))", "SsaTape::new pass 1: rename the fresh slot"),
+    (SSA, "if *parent_count.get(&node).unwrap_or(&0) > 0 || !seen.insert(node)\n            {\n                continue;\n            }", "if parent_count.get(&node).copied().unwrap_or(0) > 0 {\n                continue;\n            }\n            if !seen.insert(node) {\n                continue;\n            }", "SsaTape::new pass 2: split the gate, copied()"),
+]
